@@ -167,4 +167,9 @@ pub fn vec_sort_by<T, F: Fn(&T, &T) -> core::cmp::Ordering>(v: &mut Vec<T>, f: F
         forall|x: T| final(v)@.contains(x) <==> old(v)@.contains(x),
         forall|key: spec_fn(T) -> real| #[trigger] cmp_by_key(f, key, old(v)@) ==> sorted_by_key(final(v)@, key),
 { v.sort_by(|a, b| f(a, b)) }
+/// `Vec::dedup` (rule R30; not used by the pinned tree): ASSUMED only that it never lengthens the vector
+#[verifier::external_body]
+pub fn vec_dedup<T: PartialEq>(v: &mut Vec<T>)
+    ensures final(v)@.len() <= old(v)@.len()
+{ v.dedup() }
 } // mod seqs
